@@ -182,6 +182,7 @@ type bpipe struct {
 	onWrite    func(p []byte) // called under mu at each Write (linearization point of "bytes left the writer")
 	afterWrite func(p []byte) // called after the Write completed, without the lock (used to stretch the gap between two writes)
 	failAt     int            // 1-based index of the Write call that fails (0 = never)
+	failErr    error          // the error failing writes return (nil: errInjected); some transports report io.EOF
 	cut        int            // reader is cut after this many bytes (-1 = never)
 	cutErr     error          // error to report at the cut (nil = io.EOF)
 	cutHit     bool           // a Read has reported the cut
@@ -209,6 +210,9 @@ func (p *bpipe) write(b []byte) (int, error) {
 		return 0, io.ErrClosedPipe
 	}
 	if p.failAt != 0 && p.writes >= p.failAt {
+		if p.failErr != nil {
+			return 0, p.failErr
+		}
 		return 0, errInjected
 	}
 	if p.onWrite != nil {
